@@ -1454,7 +1454,10 @@ func (e *UnaryExpression) MarshalJSON() ([]byte, error) {
 	})
 }
 
-func (*UnaryExpression) precedence() expressionPrecedence {
+func (e *UnaryExpression) precedence() expressionPrecedence {
+	if e.Operation == OperationMove {
+		return expressionPrecedenceMove
+	}
 	return expressionPrecedenceUnaryPrefix
 }
 
